@@ -86,6 +86,7 @@ type C8Term struct {
 	F2   *C8Fn2 `json:",omitempty"`
 	X    int
 	XS   []int `json:",omitempty"` // containsAll: the list needle of  [a,b] ~ pipeline  (List.containsAllItems; Go oracle only)
+	NF   int   `json:",omitempty"` // containsAll with an EMPTY needle: how the needle is written (0 the literal [], 1.. lists that are empty only after evaluation)
 }
 type C8Case struct {
 	Pipe  *C8Pipe
@@ -339,6 +340,11 @@ func (c *C8Case) exprWith(pe string) string {
 		xs := make([]string, len(c.Term.XS))
 		for i, v := range c.Term.XS {
 			xs[i] = strconv.Itoa(v)
+		}
+		if len(xs) == 0 && c.Term.NF > 0 {
+			// a needle whose emptiness is known only after it was evaluated (seeded/C08-h: an "all found" test that runs
+			// only after a match never fires for such a needle, the haystack is consumed completely)
+			return []string{"[]", "[1,2].accept(x->x>5)", "[1,2].top(0)", "[1].skip(3)", "([]+[])", "[7].map(x->x+1).accept(x->x<0)"}[c.Term.NF%6] + " ~ " + pe
 		}
 		return "[" + strings.Join(xs, ",") + "] ~ " + pe
 	case "reduce":
@@ -2065,6 +2071,14 @@ func c8Corpus() []*C8Case {
 		{Pipe: c8Stored(failAt(big(), 9), "argappend", 60, true), Term: &C8Term{Kind: "containsAll", XS: []int{4, 1}}, Note: "pure closure, stored items: failure behind the decisive element"},
 		{Pipe: c8Stored(failAt(big(), 2), "arg", 60, true), Term: &C8Term{Kind: "first"}, Note: "pure closure, stored items: failure behind the decisive element"},
 		{Pipe: c8Stored(failAt(big(), 0), "arg", 60, true), Term: &C8Term{Kind: "first"}, Note: "pure closure, stored items: failure AT the decisive element"},
+		// an empty list needle in every spelling: nothing of the haystack is needed
+		{Pipe: big(), Term: &C8Term{Kind: "containsAll", XS: []int{}}},
+		{Pipe: big(), Term: &C8Term{Kind: "containsAll", XS: []int{}, NF: 1}},
+		{Pipe: big(), Term: &C8Term{Kind: "containsAll", XS: []int{}, NF: 2}},
+		{Pipe: failAt(big(), 3), Term: &C8Term{Kind: "containsAll", XS: []int{}, NF: 3}, Note: "empty needle: a failure at element 3 must stay invisible"},
+		{Pipe: failAt(big(), 2), Term: &C8Term{Kind: "containsAll", XS: []int{}, NF: 4}, Note: "empty needle: a failure at element 2 must stay invisible"},
+		{Pipe: c8St(c8St(c8Src("numbers", 20000), stMap(1, 1, 0)), stAccept(2, C8Pr1{Kind: "lt", T: 4})), Term: &C8Term{Kind: "containsAll", XS: []int{}, NF: 5}},
+		{Pipe: c8St(c8St(c8Src("numbers", 20000), stMap(1, 1, 0)), stAccept(2, C8Pr1{Kind: "lt", T: 4})), Term: &C8Term{Kind: "containsAll", XS: []int{}, NF: 1}},
 		// list needle ~ behind a stage that lets nothing more through after the decisive element
 		// (a containsAllItems that notices "all found" only with the next element evaluates the whole source)
 		{Pipe: c8St(c8St(c8Src("numbers", 20000), stMap(1, 1, 0)), stAccept(2, C8Pr1{Kind: "lt", T: 4})), Term: &C8Term{Kind: "containsAll", XS: []int{3, 1}}},
@@ -2299,5 +2313,7 @@ func cmdC08(seed int64, tier, outDir string) {
 	bigSrc := func() *C8Pipe { return c8St(c8Src("big", 0), stMap(1, 1, 0)) }
 	run.run(&C8Case{Pipe: c8St(bigSrc(), stAccept(2, C8Pr1{Kind: "lt", T: 4})), Term: &C8Term{Kind: "containsAll", XS: []int{3, 1}}})
 	run.run(&C8Case{Pipe: c8St(c8St(bigSrc(), stAccept(2, C8Pr1{Kind: "lt", T: 9})), stCompact(3, 4)), Term: &C8Term{Kind: "containsAll", XS: []int{8, 0}}})
+	run.run(&C8Case{Pipe: bigSrc(), Term: &C8Term{Kind: "containsAll", XS: []int{}, NF: 1}})
+	run.run(&C8Case{Pipe: c8St(bigSrc(), stAccept(2, C8Pr1{Kind: "lt", T: 4})), Term: &C8Term{Kind: "containsAll", XS: []int{}, NF: 2}})
 	finish()
 }
